@@ -42,6 +42,7 @@ Positions(S, p) ==
    \cup {[t |-> "node", v |-> b] : b \in SeqSet(KidsOf(S, p))}
 BadPositions(S, p) == {[t |-> "node", v |-> b] : b \in Live(S) \ SeqSet(KidsOf(S, p))}
                       \cup {[t |-> "idx", v |-> Len(KidsOf(S, p)) + j] : j \in 1..2}    \* beyond the end of the list
+                      \cup {[t |-> "other", v |-> 0]}                                 \* neither bool, int nor node
 MovePositions(S, x, p) ==   \* int positions are ambiguous for a move within the same parent: not driven
    IF p # x /\ S.par[x] = p
    THEN {PosNone, [t |-> "true", v |-> 0], [t |-> "false", v |-> 0], [t |-> "idx", v |-> 0]}
@@ -57,6 +58,8 @@ Ops(S) ==
    (IF "add" \in OpNames /\ Room(S) >= 1 THEN
       UNION {{[name |-> "add_child", p |-> p, d |-> d, xid |-> x, k |-> k, pos |-> pos] :
                  d \in Data, x \in Xids, k \in Kinds, pos \in Positions(S, p)} : p \in Parents(S)}
+      \cup {[name |-> "add_child", p |-> p, d |-> d, xid |-> 0, k |-> 0, pos |-> PosNone, nid |-> 1] :
+          p \in Parents(S), d \in Data}                   \* ... with a node_id chosen by the caller (nid: harness only)
       \cup {[name |-> nm, p |-> p, d |-> d, xid |-> 0, k |-> k] :
           nm \in {"append_child", "prepend_child"}, p \in Live(S), d \in Data, k \in Kinds}   \* Node methods only
       \cup {[name |-> nm, x |-> x, d |-> d, xid |-> 0] :
@@ -67,6 +70,9 @@ Ops(S) ==
       {[name |-> "add_child_nid", p |-> p, d |-> d, x |-> x] : p \in Parents(S), d \in Data, x \in Live(S)} \cup
       UNION {{[name |-> "add_child", p |-> p, d |-> d, xid |-> 0, k |-> 0, pos |-> pos] :
                  d \in Data, pos \in BadPositions(S, p)} : p \in Parents(S)}
+      \cup (IF Typed THEN {[name |-> "add_child", p |-> p, d |-> d, xid |-> 0, k |-> -1, pos |-> PosNone] :
+                             p \in Parents(S), d \in Data}       \* kind= of an unsupported type
+            ELSE {})
     ELSE {})
    \cup
    (IF "add_node" \in OpNames THEN
@@ -77,6 +83,13 @@ Ops(S) ==
       UNION {{[name |-> "add_node", p |-> pp[1], src |-> "S", x |-> pp[2], k |-> 0, deep |-> pp[3], pos |-> pos] :
                  pos \in IF Room(S) >= Need(Src, pp[2], pp[3]) THEN {PosNone, [t |-> "true", v |-> 0]} ELSE {}} :
              pp \in Parents(S) \X Live(Src) \X BOOLEAN}
+      \cup   \* the copy gets a node_id chosen by the caller / is asked to take another data_id
+      (IF Room(S) >= 1 THEN
+         {[name |-> "add_node", p |-> pp[1], src |-> "T", x |-> pp[2], k |-> 0, deep |-> pp[3], pos |-> PosNone, nid |-> 1] :
+             pp \in Parents(S) \X Live(S) \X BOOLEAN}
+         \cup {[name |-> "add_node", p |-> pp[1], src |-> "T", x |-> pp[2], k |-> 0, deep |-> FALSE, pos |-> PosNone, xidc |-> xc] :
+                pp \in Parents(S) \X Live(S), xc \in {12} \cup {S.did[y] : y \in Live(S)}}
+       ELSE {})
     ELSE {})
    \cup
    (IF "add_tree" \in OpNames THEN
